@@ -22,12 +22,14 @@ Has(db, id) == id \in DOMAIN db
 Put(db, id, v) == [x \in DOMAIN db \cup {id} |-> IF x = id THEN v ELSE db[x]]
 Drop(db, id) == [x \in DOMAIN db \ {id} |-> db[x]]
 \* result: [res |-> "ok"|"duplicate"|"notfound"|"error", val |-> value read or NoVal, db |-> new map, cb |-> <<>> or <<id, before, after>>]
-SeqStep(db, c, genids) ==
-    LET same(r) == [res |-> r, alt |-> r, val |-> NoVal, db |-> db, cb |-> <<>>]
+SeqStep(db, c0, genids) ==
+    \* a Create on the empty id of a store that generates ids is a Create on the generated id (c0.gen)
+    LET c == IF c0.op = "create" /\ c0.id = "" /\ genids THEN [c0 EXCEPT !.id = c0.gen] ELSE c0
+        same(r) == [res |-> r, alt |-> r, val |-> NoVal, db |-> db, cb |-> <<>>]
         \* two reasons to fail at once: either error is acceptable
         either(r1, r2) == [res |-> r1, alt |-> r2, val |-> NoVal, db |-> db, cb |-> <<>>] IN
     CASE c.op = "create" ->
-            IF c.id = "" /\ ~genids THEN same("error")
+            IF c.id = "" THEN same("error")
             ELSE IF Has(db, c.id) THEN (IF c.v \in {"WRONG", "VETO"} THEN either("duplicate", "error") ELSE same("duplicate"))
             ELSE IF c.v \in {"WRONG", "VETO"} THEN same("error")
             ELSE [res |-> "ok", alt |-> "ok", val |-> NoVal, db |-> Put(db, c.id, c.v), cb |-> <<c.id, NoVal, c.v>>]
